@@ -26,6 +26,12 @@ What is proved here (about the mirror in `Cedar/Ffi.lean`, for ARBITRARY parsers
   failed static part; `assemble_inv` — C08's invariants (`ApiPolicySet.WF`, core `WF`, `Strict`) hold of the result;
   `assemble_ids` / `assemble_ids_collision` — policies = static ids ∪ link ids, templates = template ids, all distinct; a
   collision is always reported; `assemble_authorize` — authorizing with the assembled set = authorizing with the API-built set.
+  The assembly model is TIED TO THE REAL CODE on every run of `./check C19` by the `ffipols` lines (harness stream `c19p`,
+  harness/src/c19_pols.rs; driver op Driver/Ops/FfiPolicies.lean): generated FFI policy sets in every shape (text | list |
+  map | absent, Cedar text and EST JSON, templates, links; wrong-kind / unparsable documents, colliding ids, dangling or
+  static template ids, missing / extra / unparsable link values) go through serde and the real `ffi::PolicySet::parse`;
+  its resulting `cedar_policy::PolicySet` listing, or the sorted classes of its error reports, are diffed against
+  `assemble` run on the real parsers' verdicts on the same documents.
 
 What remains trusted / NOT proved here: the text and EST-JSON parsers themselves (documents enter the model as the parser's
 verdict; text parser = C05), including that they assign the id they are given and that `Template::parse` refuses slot-less
